@@ -119,17 +119,23 @@ class Scheduler:
         return self.ex
 
 
-def explore(make_bodies, traced_files, bound, check, opcode_funcs=(), setup=None, max_schedules=None):
+def explore(make_bodies, traced_files, bound, check, opcode_funcs=(), setup=None, max_schedules=None, part=None):
     """Enumerate every schedule with at most `bound` preemptions.  make_bodies() -> fresh list of
     thread bodies (callables); setup() runs before each execution (e.g. cache_clear); check(ex,
-    schedule) judges one execution.  Returns statistics."""
-    stats = {"schedules": 0, "by_preemptions": {}, "max_points": 0, "point_counts": set(), "capped": False}
+    schedule) judges one execution.  `part` = (start, lo, hi) restricts the enumeration to the schedules
+    that start with thread `start` and whose FIRST switch point lies in [lo, hi) (the zero-preemption
+    schedule of that start belongs to the part with lo == 0), so that one exploration can be split over
+    worker processes without overlap.  Returns statistics."""
+    stats = {"schedules": 0, "by_preemptions": {}, "max_points": 0, "point_counts": set(), "capped": False,
+             "first_points": {}}
     nthreads = len(make_bodies())
 
-    def run(start, switches):
+    def run(start, switches, judge=True):
         if setup:
             setup()
         ex = Scheduler(make_bodies(), traced_files, opcode_funcs, start, switches).run()
+        if not judge:
+            return ex
         stats["schedules"] += 1
         k = len(switches)
         stats["by_preemptions"][k] = stats["by_preemptions"].get(k, 0) + 1
@@ -143,16 +149,22 @@ def explore(make_bodies, traced_files, bound, check, opcode_funcs=(), setup=None
         if max_schedules is not None and stats["schedules"] >= max_schedules:
             stats["capped"] = True
             return
-        ex = run(start, switches)
+        top = not switches
+        ex = run(start, switches, judge=not (top and part is not None and part[1] != 0))
+        if top:
+            stats["first_points"][start] = sum(1 for o in ex.others_at if o)
         if len(switches) >= bound:
             return
         first = switches[-1][0] + 1 if switches else 0
         for p in range(first, ex.npoints):
+            if top and part is not None and not part[1] <= p < part[2]:
+                continue
             for t in ex.others_at[p]:
                 rec(start, switches + ((p, t),))
 
     for s in range(nthreads):
-        rec(s, ())
+        if part is None or part[0] == s:
+            rec(s, ())
     return stats
 
 
